@@ -240,6 +240,10 @@ fn parse_residual(
     if plen < order {
         return Err(format!("res.first_partition: partition length {plen} shorter than predictor order {order}"));
     }
+    if plen <= order {
+        // RFC 9639 9.2.5: (block size >> partition order) MUST be larger than the predictor order
+        issues.push(format!("res.first_partition: partition length {plen} not larger than predictor order {order}"));
+    }
     sf.residuals.reserve(n - order);
     for p in 0..nparts {
         let param = br.read(pbits)? as u8;
